@@ -282,3 +282,11 @@ Proof.
 Qed.
 Theorem admissible_forms_accepted : forall h, wf h = true -> Forall (fun o => o = Ok) (snd (run fixed init h)).
 Proof. intros h H. apply (history_inv h H). Qed.
+
+(* the explicit out-of-fuel outcomes of the model are never produced *)
+Theorem send_total : forall st f m arg, snd (send st f m arg) <> ROutOfFuel.
+Proof.
+  intros st f m arg. unfold send. destruct (find_flavor st f) as [fl |]; [| discriminate].
+  destruct (lookup mid_eqb m (f_meths fl)) as [tbl |]; [| discriminate].
+  apply send_never_out_of_fuel. apply inner_call_fuel.
+Qed.
